@@ -58,11 +58,21 @@ def classFind (e : Env) (c : Nat) (p : Name) : Option Nat :=
 
 def objFor (e : Env) (p : Path) : Option Nat := dget e.st.all p
 
+/-- what one component of a dotted name is looked up as: `_localNameToFullName(p)`, except that an
+attribute of a class (`i != 0`) which the class neither defines nor imports is NOT looked up in the
+scopes enclosing the class statement (`full_name = p`; the inherited members are tried next) -/
+def componentName (e : Env) (obj : Nat) (first : Bool) (p : Name) : Option Path :=
+  match getObj e.st obj with
+  | some o =>
+    if !first && o.cls = .cls && (dget o.contents p).isNone && (dget o.aliases p).isNone then some [p]
+    else localName e (fuelOf e) obj p
+  | none => localName e (fuelOf e) obj p
+
 /-- the `for i, p in enumerate(parts)` loop of `expandName`; `first` ⇔ `i == 0` -/
 def expandLoop (e : Env) : Nat → Bool → List Name → Option Path
   | _, _, [] => none
   | obj, first, p :: rest =>
-    match localName e (fuelOf e) obj p with
+    match componentName e obj first p with
     | none => none
     | some fn =>
       let fn' : Option (Path × Bool) :=     -- (full_name, break?)
